@@ -16,6 +16,7 @@ import (
 	"errors"
 	"fmt"
 	"os"
+	"runtime"
 	"sort"
 	"strconv"
 	"strings"
@@ -88,7 +89,9 @@ func init() {
 	fmt.Sscanf(sh, "%d", &shard)
 	for i := 0; i < 3; i++ {
 		m := miniredis.NewMiniRedis()
-		if err := m.StartAddr(fmt.Sprintf("127.0.0.1:%d", 23600+4*(shard%64)+i)); err != nil {
+		base := 0 // a variant unit (same sources, other process environment) runs next to the plain one
+		fmt.Sscanf(os.Getenv("VERIF_C06_PORTBASE"), "%d", &base)
+		if err := m.StartAddr(fmt.Sprintf("127.0.0.1:%d", 23600+base+4*(shard%64)+i)); err != nil {
 			m = miniredis.NewMiniRedis()
 			if err := m.Start(); err != nil {
 				panic(err)
@@ -307,6 +310,32 @@ func C06RealNow() int64 {
 	return tv.Sec*1e9 + tv.Usec*1e3
 }
 
+var (
+	c06RunnerOnce  sync.Once
+	c06RunnerAlive bool
+)
+
+// C06RunnerAlive: once per process, outside any bubble and on the real clock,
+// the package's background task runner is asked to run one task. A runner
+// that cannot start a task (e.g. sized 0 from the process environment at
+// package init) would block the retry of every failed delete for ever - and,
+// blocking on a channel created outside the bubble, freeze virtual time.
+func C06RunnerAlive() bool {
+	c06RunnerOnce.Do(func() {
+		done := make(chan struct{})
+		go taskRunner.Schedule(func() { close(done) })
+		select {
+		case <-done:
+			c06RunnerAlive = true
+		case <-time.After(30 * time.Second): // generous: the machine may be heavily loaded
+		}
+	})
+	return c06RunnerAlive
+}
+
+// C06RunnerDead is the verdict text used by both rules.
+const C06RunnerDead = "the cache package's background task runner did not start a task within 30 s of real time (GOMAXPROCS=%d): a failed delete can never be retried in this process"
+
 // C06LocalWheel replaces the package's clean wheel by one created in the
 // calling bubble (same interval, slots and execute function as init() uses), so
 // that retries run on virtual time. The returned function stops it and restores
@@ -359,6 +388,9 @@ func c06Expect(t c06Task, inverted bool) []int {
 var errC06Scripted = errors.New("c06 scripted delete failure")
 
 func c06CleanInterp(t *testing.T, c c06CleanCase) (v kit.Verdict) {
+	if !C06RunnerAlive() {
+		return kit.Verdict{Fail: fmt.Sprintf(C06RunnerDead, runtime.GOMAXPROCS(0))}
+	}
 	var fail, known string
 	classes := map[string]bool{}
 	res := kit.Bubble(t, func() {
